@@ -64,6 +64,8 @@ def world_key(w: W.World, extra=None):
         from mc import localbridge
 
         extra = (extra, localbridge.key_part(w.pool), (w.tracked or {}).get("local"))
+    if getattr(w, "private", None):
+        extra = (extra, sorted(w.private.items()))
     return digest(
         dict(files=w.canon_files(), hashes=w.hashes, logs=sorted(w.logs), tracked=tj, stray=stray, other=other_tracked, conf=w.conf,
              wf=repr(w.wf.key()), extra=extra)
